@@ -31,7 +31,8 @@ func (World) Stub(prop string) []string {
 		return []string{"clock: testing/synctest bubble clock in the sequential arm (LRU timestamps); real clock in the race arm",
 			"scheduler: serialised logical threads with //go:norace hand-off (race arm)"}
 	case "C31":
-		return []string{"scheduler: serialised logical threads with //go:norace hand-off (race arm)"}
+		return []string{"scheduler: serialised logical threads with //go:norace hand-off (race arm)",
+			"interleaved arm: the hashers the filter is constructed with compute the real hash and then park (simkit.Parker inside a synctest bubble), attributed to the logical thread that spawned them; the driver starts operations and releases hashers one at a time in a seeded order"}
 	}
 	return []string{"none (single in-memory component; the simulator owns only the operation history and configuration)"}
 }
@@ -61,9 +62,9 @@ func (World) Rule(prop string) string {
 	case "C28":
 		return "capacity 1-8 items and 1-200 bytes, 20-200 ops addSized/addIfMissing/addAndReturnEvicted/get/peek/contains/remove/purge/keys with sizes -1..300 over <=12 keys; non-trivial = at least one eviction happened; distinct = hash of full plan"
 	case "C29":
-		return "sequential arm: 20-150 ops over 3 shards (one never added to), nonces 0-6, pool size 2-6, inside a synctest bubble; race arm: 2-4 logical threads with seeded op lists serialised by a race-detector-invisible hand-off in a -race binary; non-trivial = an eviction or removal happened (seq) / at least two threads touched the pool (race); distinct = hash of full plan"
+		return "sequential arm: 20-150 ops over 3 shards (one never added to), nonces 0-6, pool size 2-6, inside a synctest bubble; 40% of the runs are forky (two nonces per shard, so nonces hold several competing headers); race arm: 2-4 logical threads with seeded op lists serialised by a race-detector-invisible hand-off in a -race binary; non-trivial = an eviction or removal happened (seq) / at least two threads touched the pool (race); distinct = hash of full plan"
 	case "C31":
-		return "sequential arm: filter size from minimum accepted to 4096, 1-3 hashers, add/mayContain/clear; race arm: add||mayContain on 2-4 logical threads in a -race binary; non-trivial = at least 3 adds and one query; distinct = hash of full plan"
+		return "sequential arm: filter size from minimum accepted to 4096, 1-3 hashers, add/mayContain/clear; race arm: add||mayContain on 2-4 logical threads in a -race binary; interleaved arm (40% of the non-race runs): 4-16 add/mayContain over 1-3 keys on 2-3 logical threads whose hashing phases overlap in a seeded order, oracle: a MayContain invoked after an Add of the key returned reports true; non-trivial = at least 3 adds and one query (interleaved: a query overlapped an add of the same key); distinct = hash of full plan"
 	}
 	return ""
 }
